@@ -11,9 +11,17 @@
 (*   {"e":"Reset","n":round}                                               *)
 (*   {"e":"InitCall","i":tag,"k":kind}                                     *)
 (*   {"e":"InitRet","i":tag,"r":"some|nil|ok|panic","own":bool}            *)
-(*   {"e":"ObsCall","o":id,"op":op}                                        *)
-(*   {"e":"ObsRet","o":id,"tags":[5 tags],"en":bool,"fl":bool,"pan":bool}  *)
+(*   {"e":"ObsCall","o":id,"op":op,"via":entry point,"tmo":timeout}        *)
+(*   {"e":"ObsRet","o":id,"tags":[5 tags],"en":bool,"fl":bool,"pan":bool,  *)
+(*    "fa":0|1|2}   fl = what flush returned, fa = what the tagged emitter *)
+(*                  answered (0 not asked, 1 false, 2 true)                *)
 (*   {"e":"Tally","used":[invocations of the components tagged 1..]}       *)
+(*   {"e":"Hang","t":thread,"in":call}  a call that never returned: no     *)
+(*                  action matches it, the round is rejected               *)
+(* An initialiser's "panic" result is accepted only where Slot.tla's RetOf *)
+(* yields it: init_slot that lost.  The flush timeout (zero, 1 ns, 1 ms,   *)
+(* 1 s, Duration::MAX) and entry point are chosen by the harness; the      *)
+(* demands below hold for all of them.                                     *)
 (* TrySet / Read are not logged: TLC places them between call and return.  *)
 (* Every call contributes exactly one internal step, so a trace is         *)
 (* accepted iff the search reaches depth  Len(Rec) + #calls.               *)
@@ -64,7 +72,9 @@ TInitRet ==
 TObsCall == IsEv("ObsCall") /\ Ev.o \in Observers /\ ObsCall(Ev.o, Ev.op) /\ l' = l + 1
 
 \* the observation is the one the read determines: the same tag in every component the
-\* operation exercises, is_enabled accordingly, never a panic, flush true on the empty slot
+\* operation exercises, is_enabled accordingly, never a panic; flush returns true on the empty
+\* slot (whatever the timeout) without any emitter being asked, and on an initialised slot
+\* it returns what the installed emitter answered
 TObsRet ==
     /\ IsEv("ObsRet") /\ Ev.o \in Observers
     /\ opc[Ev.o] = "read"
@@ -72,7 +82,8 @@ TObsRet ==
     /\ LET res == ResultOf(Ev.o)
        IN /\ \A k \in 1..NComp : Ev.tags[k] = res.tags[k]
           /\ res.op = "is_enabled" => Ev.en = res.en
-          /\ (res.op = "flush" /\ ~res.en) => Ev.fl
+          /\ (res.op = "flush" /\ ~res.en) => Ev.fl /\ Ev.fa = 0
+          /\ (res.op = "flush" /\ res.en) => Ev.fa # 0 /\ (Ev.fl <=> Ev.fa = 2)
           /\ ObsRet(Ev.o, res)
     /\ l' = l + 1
 
